@@ -342,16 +342,99 @@ Proof.
   rewrite Z.add_comm, Z.div_add by lia. rewrite Z.div_small by lia. lia.
 Qed.
 
-(* date_to_ts(date, zone) subtracts the offset in effect AT UTC MIDNIGHT of the date.  It is the local midnight
-   when the instant it returns still has that offset. *)
-Lemma date_zone_roundtrip_partial : forall z, zone_ok z = true -> forall oob d,
-  let t := date_to_ts_zone oob d z in
-  zone_offset oob z t = zone_offset oob z (date_to_ts d) ->
-  dt_local (ts_to_dt oob t z) = date_to_ts d /\ adt_date (ts_to_dt oob t z) = d.
+(* ---- dates with a zone (date_to_ts after fix 8feac94) ---------------------------------------------- *)
+
+Lemma date_to_ts_zone_eq : forall oob d z,
+  date_to_ts_zone oob d z =
+  date_to_ts d - zone_offset oob z (date_to_ts d - zone_dt_offset oob z (date_to_ts d) None).
 Proof.
-  intros z Hok oob d t Heq.
-  assert (Hl : dt_local (ts_to_dt oob t z) = date_to_ts d).
-  { unfold ts_to_dt, tz_fromutc, py_utc_to_ts_ms. cbn [dt_local]. rewrite Heq.
-    unfold t, date_to_ts_zone, date_to_ts. cbv zeta. lia. }
-  split; [exact Hl|]. unfold adt_date. rewrite Hl. apply date_roundtrip.
+  intros. unfold date_to_ts_zone, date_to_ts. cbv zeta.
+  destruct (Z.eqb_spec (zone_offset oob z (d * TICKS_PER_DAY - zone_dt_offset oob z (d * TICKS_PER_DAY) None))
+                       (zone_dt_offset oob z (d * TICKS_PER_DAY) None)) as [->|_]; reflexivity.
+Qed.
+
+Lemma zone_offset_in_interval : forall oob z ts k, zone_facts z -> in_interval z k ts ->
+  zone_offset oob z ts = E z k.
+Proof.
+  intros oob z ts k F [Hk [Hl Hr]]. rewrite zone_offset_eq by exact F.
+  rewrite (zone_index_unique oob z ts k F Hk Hl Hr). reflexivity.
+Qed.
+
+(* an instant that renders on the date makes date_exists true: the hypothesis of the theorem below is implied
+   by (and so no stronger than) "some instant has this local date" *)
+Lemma date_exists_complete : forall z, zone_ok z = true -> forall oob d ts,
+  adt_date (ts_to_dt oob ts z) = d -> date_exists z d = true.
+Proof.
+  intros z Hok oob d ts Hd. pose proof (zone_ok_facts z Hok) as F.
+  pose proof (zone_index_in_interval oob z ts F) as Hin.
+  unfold adt_date in Hd. rewrite (ts_to_dt_local oob z ts _ F Hin) in Hd. rewrite E_W in Hd.
+  destruct Hin as [Hk [Hl Hr]]. set (k := zone_index oob z ts) in *.
+  assert (Hday : d * TICKS_PER_DAY <= ts + - W z k < d * TICKS_PER_DAY + TICKS_PER_DAY).
+  { change TICKS_PER_DAY with 5184000000000 in *. subst d. pose proof (Z.mod_pos_bound (ts + - W z k) 5184000000000 ltac:(lia)).
+    pose proof (Z.div_mod (ts + - W z k) 5184000000000 ltac:(lia)). lia. }
+  unfold date_exists. apply existsb_exists. exists k. split; [apply in_zrange; lia|].
+  apply andb_true_iff. split; apply orb_true_iff.
+  - destruct Hl as [Hl|Hl]; [left; apply Z.eqb_eq; exact Hl|right].
+    apply Z.ltb_lt. unfold TH. replace (k - 1 + 1) with k by lia. lia.
+  - destruct Hr as [Hr|Hr]; [left; apply Z.eqb_eq; exact Hr|right].
+    apply Z.ltb_lt. unfold OU. lia.
+Qed.
+
+Lemma zone_date_ok_facts : forall z, zone_date_ok z = true -> forall k, 0 <= k < nZ z ->
+  (k + 1 < nZ z -> U z k + (W z k - W z (k + 1)) <= U z (k + 1)) /\
+  (W z k - W z (k + 1) < TICKS_PER_DAY \/
+   (W z k - W z (k + 1) = TICKS_PER_DAY /\ OU z k mod TICKS_PER_DAY = 0)).
+Proof.
+  intros z H k Hk. unfold zone_date_ok in H. rewrite forallb_forall in H.
+  specialize (H k ltac:(apply in_zrange; lia)). cbv zeta in H.
+  apply andb_true_iff in H. destruct H as [H1 H2]. split.
+  - intros Hk1. apply orb_true_iff in H1. destruct H1 as [H1|H1]; [apply Z.leb_le in H1; lia|].
+    apply Z.leb_le in H1. exact H1.
+  - apply orb_true_iff in H2. destruct H2 as [H2|H2]; [left; apply Z.ltb_lt; exact H2|right].
+    apply andb_true_iff in H2. destruct H2 as [H2 H3]. apply Z.eqb_eq in H2. apply Z.eqb_eq in H3. split; assumption.
+Qed.
+
+(* For a date that exists in the zone, date_to_ts(date, zone) is an instant that renders on that date; it renders
+   as local midnight exactly unless local midnight is skipped on that date. *)
+Theorem date_zone_roundtrip : forall z, zone_ok z = true -> zone_date_ok z = true -> forall oob d,
+  date_exists z d = true ->
+  let t := date_to_ts_zone oob d z in
+  adt_date (ts_to_dt oob t z) = d /\
+  (dt_local (ts_to_dt oob t z) = date_to_ts d \/ forall ts, dt_local (ts_to_dt oob ts z) <> date_to_ts d).
+Proof.
+  intros z Hok Hdok oob d Hex. pose proof (zone_ok_facts z Hok) as F. cbv zeta.
+  rewrite date_to_ts_zone_eq. set (M := date_to_ts d).
+  destruct (local_offset_is_adjacent z Hok oob M None) as [Hoff [Hr Hcase]]. cbv zeta in *.
+  unfold local_to_ts in Hcase. rewrite Hoff in *. set (r := zone_index_dt oob z M None) in *.
+  destruct Hcase as [[Hin Hloc]|[Hr1 [Hin [Hgap Hskip]]]].
+  - (* midnight exists *)
+    rewrite (zone_offset_in_interval oob z _ r F Hin). split; [|left; exact Hloc].
+    unfold adt_date. rewrite Hloc. apply date_roundtrip.
+  - (* midnight skipped: M in the gap of transition r-1 *)
+    rewrite (zone_offset_in_interval oob z _ (r - 1) F Hin). rewrite E_W.
+    destruct (zone_date_ok_facts z Hdok (r - 1) ltac:(lia)) as [HC HD].
+    replace (r - 1 + 1) with r in * by lia.
+    unfold OU, TH in Hgap. replace (r - 1 + 1) with r in Hgap by lia.
+    assert (Hin' : in_interval z r (M - - W z (r - 1))).
+    { unfold in_interval. split; [lia|]. split; [right; lia|].
+      destruct (Z.eq_dec r (nZ z)); [left; assumption|right]. specialize (HC ltac:(lia)). lia. }
+    unfold adt_date. rewrite (ts_to_dt_local oob z _ r F Hin'). rewrite E_W.
+    split; [|right; exact Hskip].
+    destruct HD as [HD|[HD1 HD2]].
+    + fold (ts_to_date (M - - W z (r - 1) + - W z r)). replace (M - - W z (r - 1) + - W z r) with (date_to_ts d + (W z (r - 1) - W z r)) by (unfold M; lia).
+      apply date_of_instant. lia.
+    + (* a whole day is skipped: the date does not exist *)
+      exfalso. unfold date_exists in Hex. apply existsb_exists in Hex. destruct Hex as [k [Hk Hc]].
+      apply in_zrange in Hk. apply andb_true_iff in Hc. destruct Hc as [Hc1 Hc2].
+      assert (HM : M = OU z (r - 1)).
+      { unfold OU. apply Z.mod_divide in HD2; [|unfold TICKS_PER_DAY; lia]. destruct HD2 as [q Hq]. unfold OU in Hq.
+        unfold M, date_to_ts in *. change TICKS_PER_DAY with 5184000000000 in *. lia. }
+      destruct (Z_lt_le_dec k r) as [Hlt|Hge].
+      * apply orb_true_iff in Hc2. destruct Hc2 as [Hc2|Hc2]; [apply Z.eqb_eq in Hc2; lia|].
+        apply Z.ltb_lt in Hc2. change (d * TICKS_PER_DAY) with M in Hc2.
+        pose proof (zf_OU z F k (r - 1) ltac:(lia) ltac:(lia) ltac:(lia)). lia.
+      * apply orb_true_iff in Hc1. destruct Hc1 as [Hc1|Hc1]; [apply Z.eqb_eq in Hc1; lia|].
+        apply Z.ltb_lt in Hc1. change (d * TICKS_PER_DAY) with M in Hc1.
+        pose proof (zf_TH z F (r - 1) (k - 1) ltac:(lia) ltac:(lia) ltac:(lia)) as Hm.
+        unfold TH in Hm at 1. replace (r - 1 + 1) with r in Hm by lia. unfold OU in HM. lia.
 Qed.
